@@ -80,6 +80,8 @@ pub enum BankEdit {
     Insert(String, Vec<u8>),
     /// overwrite one byte of bank i
     Corrupt(u16, u16, u8),
+    /// one PadWing chunk bank (the i-th of them) filed under another PadWing board's name
+    MisnamePwbChunk(u16, u8),
 }
 
 pub fn bank_name() -> impl Strategy<Value = String> {
@@ -103,6 +105,7 @@ pub fn bank_edit() -> impl Strategy<Value = BankEdit> {
         2 => (any::<u16>(), bank_name()).prop_map(|(i, n)| BankEdit::Rename(i, n)),
         2 => (bank_name(), vec(any::<u8>(), 0..=100)).prop_map(|(n, d)| BankEdit::Insert(n, d)),
         1 => (any::<u16>(), any::<u16>(), any::<u8>()).prop_map(|(i, p, v)| BankEdit::Corrupt(i, p, v)),
+        2 => (any::<u16>(), 1u8..71).prop_map(|(i, d)| BankEdit::MisnamePwbChunk(i, d)),
     ]
 }
 
@@ -128,6 +131,16 @@ pub fn apply_bank_edits(banks: &mut Vec<Bank>, edits: &[BankEdit]) {
             }
             BankEdit::Rename(i, name) if n > 0 => banks[pick(*i, n)].0 = name.clone(),
             BankEdit::Insert(name, data) => banks.push((name.clone(), data.clone())),
+            BankEdit::MisnamePwbChunk(i, d) => {
+                let pcs: Vec<usize> = (0..n).filter(|&k| banks[k].0.starts_with("PC")).collect();
+                if !pcs.is_empty() {
+                    let k = pcs[pick(*i, pcs.len())];
+                    let boards = oracles::boards::PADWING_BOARDS;
+                    if let Some(b) = boards.iter().position(|x| banks[k].0[2..] == *x.0) {
+                        banks[k].0 = format!("PC{}", boards[(b + *d as usize) % 71].0);
+                    }
+                }
+            }
             BankEdit::Corrupt(i, p, v) if n > 0 => {
                 let d = &mut banks[pick(*i, n)].1;
                 if !d.is_empty() {
